@@ -237,7 +237,7 @@ class RawMeshData:
                     ]
                 for face in faces_C:
                     self.cell_faces._elem.append(face_id[utils.keyify(face)])
-                    if nca!=0: 
+                    if nca==0: 
                         self.cell_faces._adj.append(iC)
 
     def _complete_edges_from_faces(self):
